@@ -93,6 +93,14 @@ CHECKS = {
             "equal the baseline. In-process: recompile after reset reproduces the code, three runs of one function agree.",
             "digests (64-bit FNV) stand for the bytes; explicit program names; non-native targets compiled only",
             "DESIGN.md 4/C17", True),
+    "C10": ("xabi", "exploration",
+            "bounded exhaustive enumeration of compiled programs x targets x n x machine-state seeds, each called directly through an assembly trampoline that seeds and inspects the architectural state",
+            "Every natively compiled (program, target) pair of the enumerated space (all single-opcode programs incl. float, corpus, "
+            "register-pressure and 12-array programs, 2-D) is called with sentinel values in rbx/rbp/r12-r15, every MXCSR rounding/FTZ/DAZ "
+            "combination, canary words in the caller's frame and the executor flush against PROT_NONE pages; afterwards callee-saved "
+            "registers, rsp, the canaries, MXCSR control bits, DF and the x87/MMX tag word are compared.",
+            "System V AMD64 ABI; MXCSR status bits are not preserved by definition; array/source integrity is C01/C03's subject",
+            "DESIGN.md 4/C10", True),
 }
 
 NOT_YET = {}
@@ -133,6 +141,8 @@ def main():
             "add_only": True,
         },
         "engines": [
+            {"name": "xabi", "path": "engines/xabi.c", "serves_properties": ["C10"],
+             "kind_free_text": "assembly trampoline + enumerator over compiled programs, n and MXCSR seeds"},
             {"name": "xdet", "path": "engines/xdet.c", "serves_properties": ["C17"],
              "kind_free_text": "history replayer + probe compiler emitting code/listing digests per (probe,target); driver enumerates histories and compares with the baseline"},
             {"name": "xreg", "path": "engines/xreg.c", "serves_properties": ["C20"],
